@@ -299,7 +299,7 @@ def run_lexer(ctx, res):
 def run(ctx):
     res = Result()
     N = 2 if ctx.quick() else 3
-    NC = 3 if ctx.quick() else 5
+    NC = 3 if ctx.quick() else 4
     N = int(os.environ.get("VERIF_C01_N", N))
     NC = int(os.environ.get("VERIF_C01_NC", NC))
     run_parser(ctx, res, N, NC, POFF=() if ctx.quick() else (62, 63))
